@@ -67,7 +67,20 @@ struct Built {
 }
 
 fn build(ch: &mut Chooser) -> Built {
-    let vi = ch.pick_free_named("variant", VARIANTS);
+    build_with(ch, None)
+}
+/// variants whose key derivation differs (R2, R3 at 40 and 128 bit, R4 AES, R5, R6), for the password sweep
+const PW_VARIANTS: &[&str] = &["R2-RC4-40", "R3-RC4-40", "R3-RC4-128", "R4-AESV2", "R5-AESV3", "R6-AESV3"];
+const N_PASSWORDS: usize = 256;
+fn password_names() -> &'static [&'static str] {
+    static N: std::sync::OnceLock<Vec<&'static str>> = std::sync::OnceLock::new();
+    N.get_or_init(|| (0..N_PASSWORDS).map(|k| &*Box::leak(format!("pw{}", k).into_boxed_str())).collect())
+}
+fn build_with(ch: &mut Chooser, sweep: Option<(usize, usize)>) -> Built {
+    let vi = match sweep {
+        Some((v, _)) => VARIANTS.iter().position(|n| *n == PW_VARIANTS[v]).expect("variant name"),
+        None => ch.pick_free_named("variant", VARIANTS),
+    };
     let v = variant(vi);
     let utf8 = v.r() >= 5;
     let ui = ch.pick_named("user-pw", USER_PW);
@@ -83,12 +96,17 @@ fn build(ch: &mut Chooser) -> Built {
     let spell = ch.pick_named("string-spelling", SPELL);
     let sfilter = ch.pick_named("stream-filter", SFILTER);
     let xref = ch.pick_named("xref", XREF);
-    let upw = user_pw(ui, utf8);
-    let opw: Vec<u8> = match oi {
+    let mut upw = user_pw(ui, utf8);
+    let mut opw: Vec<u8> = match oi {
         0 => b"o".to_vec(),
         1 => upw.clone(),
         _ => b"O123456789abcdef0123456789abcdefZ".to_vec(),
     };
+    if let Some((_, k)) = sweep {
+        // password sweep: the key derivations of revisions 5 and 6 run a data-dependent number of rounds
+        upw = format!("user-{}", k).into_bytes();
+        opw = format!("owner-{}", k * 7 + 1).into_bytes();
+    }
     let p: i32 = [-4, -3904, 0][pi];
     let id0: Vec<u8> = if idi == 0 { b"\x01\x02\x03\x04\x05\x06\x07\x08\x09\x0a\x0b\x0c\x0d\x0e\x0f\x10".to_vec() } else { vec![0x7f] };
     let sec = Security::new(v, &upw, &opw, p, &id0, em);
@@ -235,8 +253,17 @@ fn read_all(b: &Built, pw: &[u8]) -> std::result::Result<(), (String, String)> {
     Ok(())
 }
 
+pub fn password_case(ch: &mut Chooser, t: &mut Tally) {
+    let v = ch.pick_free_named("pw-variant", PW_VARIANTS);
+    let k = ch.pick_free_named("password", password_names());
+    let b = build_with(ch, Some((v, k)));
+    judge_built(ch, t, b, "c06.passwords");
+}
 pub fn crypt_case(ch: &mut Chooser, t: &mut Tally) {
     let b = build(ch);
+    judge_built(ch, t, b, "c06.crypt");
+}
+fn judge_built(ch: &mut Chooser, t: &mut Tally, b: Built, engine: &str) {
     if ch.want_sample {
         println!("file ({} bytes):\n{}", b.bytes.len(), show_bytes(&b.bytes[..b.bytes.len().min(1500)]));
     }
@@ -275,7 +302,7 @@ pub fn crypt_case(ch: &mut Chooser, t: &mut Tally) {
                 if who == "owner" {
                     devs.push("opened-with=owner-password".into());
                 }
-                t.fail("c06.crypt", &kind, devs, format!("opened with {} password: {}", who, detail), ch.replay_value("c06.crypt"));
+                t.fail(engine, &kind, devs, format!("opened with {} password: {}", who, detail), ch.replay_value(engine));
             }
         }
     }
@@ -303,7 +330,7 @@ pub fn crypt_case(ch: &mut Chooser, t: &mut Tally) {
                 t.outcome(&kind);
                 let mut devs = ch.deviations();
                 devs.push(format!("wrong-password={}", what));
-                t.fail("c06.crypt", &kind, devs, detail, ch.replay_value("c06.crypt"));
+                t.fail(engine, &kind, devs, detail, ch.replay_value(engine));
             }
         }
     }
@@ -327,14 +354,15 @@ pub fn encrypted_rich_doc() -> Option<Vec<u8>> {
 
 pub fn run(tier: Tier, _seed: u64, tally: &mut Tally) -> CheckMeta {
     let bound = if tier.thorough() { 3 } else { 2 };
-    explore("c06.crypt", Limits::new(bound).wall(if tier.thorough() { 3000 } else { 120 }), tally, crypt_case);
+    explore("c06.crypt", Limits::new(bound).wall(if tier.thorough() { 3000 } else { 600 }), tally, crypt_case);
+    explore("c06.passwords", Limits::new(0), tally, password_case);
     tally.validated = tally.evaluations;
     tally.sample(json!({"variant": "R6-AESV3", "deviation": "plain-len=16", "opened_with": ["user", "owner", "4 wrong passwords"]}));
     tally.sample(json!({"variant": "R3-RC4-56", "deviation": "gen=65535"}));
     CheckMeta {
         prop: "C06",
         level: "model_checking",
-        rule: format!("all 17 handler variants (R2; R3 at every key length 40..128; R4 with /V2 and /AESV2; R5; R6) as a free dimension x <= {} deviations among user password (5), owner password (3), /P (3), /ID[0] (2), EncryptMetadata (2), /Encrypt direct or indirect, object number (5, up to 999990), generation (0, 1, 65535), plaintext length (0, 1, 15, 16, 17, 32, 33), string spelling, stream filter, xref format with a compressed string; every document is produced by the independent encryptor, opened with the user and with the owner password (every string, stream, metadata stream and the /Encrypt dictionary's own strings compared with the plaintext) and with up to four wrong passwords (must be InvalidPassword). Distinct by file hash x password.", bound),
+        rule: format!("all 17 handler variants (R2; R3 at every key length 40..128; R4 with /V2 and /AESV2; R5; R6) as a free dimension x <= {} deviations among user password (5), owner password (3), /P (3), /ID[0] (2), EncryptMetadata (2), /Encrypt direct or indirect, object number (5, up to 999990), generation (0, 1, 65535), plaintext length (0, 1, 15, 16, 17, 32, 33), string spelling, stream filter, xref format with a compressed string; every document is produced by the independent encryptor, opened with the user and with the owner password (every string, stream, metadata stream and the /Encrypt dictionary's own strings compared with the plaintext) and with up to four wrong passwords (must be InvalidPassword). Password sweep: {} key-derivation variants x {} user/owner password pairs (everything else default), since the revision 5/6 hashes run a password-dependent number of rounds. Distinct by file hash x password.", bound, PW_VARIANTS.len(), N_PASSWORDS),
         assumptions: vec!["the encryptor's key derivation is validated at start-up against the ten third-party encrypted fixtures in files/".into(), "public-key handlers, /StrF != /StmF and named /Crypt filters are outside the property".into()],
         exhaustive: true,
         bounds: json!({"deviations": bound}),
@@ -343,5 +371,9 @@ pub fn run(tier: Tier, _seed: u64, tally: &mut Tally) -> CheckMeta {
 
 pub fn replay(case: &Value, tally: &mut Tally) {
     let picks: Vec<u32> = case["picks"].as_array().map(|a| a.iter().map(|x| x.as_u64().unwrap() as u32).collect()).unwrap_or_default();
-    run_one(&picks, tally, crypt_case);
+    if case["engine"].as_str() == Some("c06.passwords") {
+        run_one(&picks, tally, password_case);
+    } else {
+        run_one(&picks, tally, crypt_case);
+    }
 }
